@@ -23,7 +23,8 @@ ASSUMPTIONS = [
     'identity of an element in both encodings)',
     'attribute names are distinct case-insensitively and never "name" (that key is the element name); "id" is allowed '
     '(from_kv1 documents that only the elementid type is special)',
-    'strings hold no lone surrogates; no NUL in graphs sent through an encoding (NUL-terminated on the binary wire)',
+    'strings hold no lone surrogates; no NUL in graphs sent through the binary encoding (NUL-terminated on the wire) - '
+    'KeyValues2 graphs do contain NUL',
     'binary: TIME only for version >= 3 (ValueError accepted below); ints in int32; floats float32-representable; '
     'colours 0-255; Time a multiple of 1/10000 s inside int32; angle components in [0, 360)',
     'KeyValues2: an element type is never a value-type keyword, "<valuetype>_array", "element" or "elementid" '
@@ -53,7 +54,7 @@ def _common(tier: str, nul: bool = False):
     big = tier != 'quick'
     return {
         'graph': dmxgen.graph_descs(max_attrs=7 if big else 6, max_array=6 if big else 5, nul=nul),
-        'mode': st.sampled_from(MODES),
+        'mode': st.sampled_from(MODES + ['format', 'silent']),
         'parse_unicode': st.booleans(),
         'fmt': st.tuples(st.sampled_from(FMT_NAMES), st.integers(0, 99)).map(list),
     }
@@ -64,7 +65,8 @@ def strategy_binary(tier: str):
 
 
 def strategy_kv2(tier: str):
-    return st.fixed_dictionaries(_common(tier))
+    # The text encoding can express NUL characters (the binary one, with NUL-terminated strings, cannot).
+    return st.fixed_dictionaries(_common(tier, nul=True))
 
 
 def strategy_decoder(tier: str):
@@ -253,9 +255,19 @@ def execute_decoder(desc, ctx):
 
 # ---------------------------------------------------------------------------------------------------------- KV1 bridge
 
+KV1_NAMES = ['name', 'Name', 'subkeys', 'SubKeys', 'value', 'id', 'a', 'A', '']
+
+
 def strategy_kv1(tier: str):
+    # C01's tree shape, with the names the bridge treats specially (and case-insensitive duplicates) made likely.
+    name = st.one_of(gens.kv_name(), st.sampled_from(KV1_NAMES))
+    leaf = st.tuples(name, gens.kv_value()).map(list)
+    node = st.recursive(
+        leaf, lambda children: st.tuples(name, st.lists(children, max_size=6)).map(list),
+        max_leaves=25 if tier == 'quick' else 50,
+    )
     return st.fixed_dictionaries({
-        'tree': st.lists(c01.node_strategy(tier), max_size=5),
+        'tree': st.lists(node, max_size=5),
         'as_root': st.booleans(),
     })
 
@@ -358,17 +370,18 @@ _SHAPES = ('shared', 'cycle', 'self_ref', 'empty_array', 'stub', 'stub_in_array'
            'non_ascii', 'ascii_rejected', 'mode:ascii', 'mode:format', 'mode:silent')
 
 SUBCHECKS = [
-    Sub('binary', execute_binary, strategy=strategy_binary, quick=1600, thorough=100000, floor=100,
+    Sub('binary', execute_binary, strategy=strategy_binary, quick=3000, thorough=80000, floor=300, quick_shards=5,
         must_hit=_SHAPES + ('time_rejected',) + _cells_must(
             ['bin1', 'bin2', 'bin3', 'bin4', 'bin5'], skip={('time', 'bin1'), ('time', 'bin2')})),
-    Sub('kv2', execute_kv2, strategy=strategy_kv2, quick=800, thorough=50000, floor=50,
+    Sub('kv2', execute_kv2, strategy=strategy_kv2, quick=1200, thorough=40000, floor=100, quick_shards=4,
         must_hit=_SHAPES + ('cull_uuid_dropped',) + _cells_must(['kv2n', 'kv2f'])),
-    Sub('binary-decoder', execute_decoder, strategy=strategy_decoder, quick=1600, thorough=100000, floor=100,
+    Sub('binary-decoder', execute_decoder, strategy=strategy_decoder, quick=2400, thorough=60000, floor=200,
+        quick_shards=4,
         must_hit=('v1', 'v2', 'v3', 'v4', 'v5', 'stub', 'stub_in_array', 'null_in_array', 'non_ascii')
         + _cells_must(['bin5'])),
-    Sub('kv1-bridge', execute_kv1, strategy=strategy_kv1, quick=2000, thorough=120000, floor=50,
+    Sub('kv1-bridge', execute_kv1, strategy=strategy_kv1, quick=2000, thorough=100000, floor=100, quick_shards=2,
         must_hit=('block', 'leaf', 'dup_leaf', 'reserved_leaf', 'mixed', 'empty_block', 'root', 'single')),
-    Sub('kv1-export', execute_kv1_export, strategy=strategy_kv1, quick=600, thorough=30000, floor=20,
+    Sub('kv1-export', execute_kv1_export, strategy=strategy_kv1, quick=600, thorough=20000, floor=20, quick_shards=1,
         must_hit=('via:binary5', 'via:kv2', 'mixed', 'dup_leaf')),
 ]
 
